@@ -257,6 +257,7 @@ var c09Struct = []string{
 	"t.id -> u.id", "u: {shape: sql_table; id: int}", "s: {shape: sequence_diagram; x -> y; y -> x: r}", "s: {shape: sequence_diagram; x.sp -> y.sp; x.\"note\"}", "s.g: {x -> y}",
 	"g: {grid-rows: 2; p; q; r}", "g.p -> g.q", "layers: {l: {x; x -> y}}", "scenarios: {s1: {a.z}}", "steps: {1: {n1}; 2: {n2 -> n1}}", "a: null", "a.b: null", "(a -> b)[0]: null",
 	"*.style.opacity: 0.5", "** -> a", "A.B", "a: {near: top-left}", "a.near: b", "c.shape: class", "c.f: string", "t.shape: sql_table", "a: {_.x}", "a: {b: {_._.y}}", "x.y.z -> x.y.w", "q -> q",
+	"w: {_.t.id: int}", "w: {_.c.f: string}", "w: {_.t.zz: text; k}", "w: {v: {_._.t.n: x}}", "w: {_.s.x -> _.s.y: late}", "w: {_.g.p: gp}",
 	"c: {shape: class; f: {shape: circle}}", "t: {shape: sql_table; row: {x}}", "a: {shape: class}; a.k -> b", "a.class: k; classes: {k: {shape: class}}", "a.b.c: {d}",
 }
 
